@@ -22,6 +22,7 @@ const (
 	lvArrElem // element of an array-typed location
 	lvLocalMap // entry of an owned local map
 	lvUnknown
+	lvGlobalInit // a pointer/interface-typed package variable being initialised (init contracts): its symbolic constant is bound to the value
 )
 
 type LV struct {
@@ -1266,6 +1267,9 @@ func (fv *FV) lvalue(e *Env, x ast.Expr) LV {
 				}
 				switch v.Type().Underlying().(type) {
 				case *types.Interface, *types.Pointer, *types.Signature:
+					if fv.u != nil && strings.HasPrefix(fv.u.ifaceKey, "init.") {
+						return LV{kind: lvGlobalInit, obj: v, typ: v.Type()}
+					}
 					return LV{kind: lvUnknown, typ: v.Type()}
 				}
 				return LV{kind: lvCell, comp: "G$" + sanitize(shortQual(v.Pkg())+"."+v.Name()), idx: []Term{tNull}, typ: v.Type()}
@@ -1446,6 +1450,13 @@ func (fv *FV) storeLV(e *Env, lv LV, v Value) {
 	}
 	switch lv.kind {
 	case lvBlank:
+	case lvGlobalInit:
+		if gv, ok := lv.obj.(*types.Var); ok && v.K == kScalar {
+			g := fv.globalVar(e, gv)
+			if g.K == kScalar && g.T.Sort == v.T.Sort {
+				fv.assume(e, eq(g.T, v.T))
+			}
+		}
 	case lvVar:
 		if fv.localMaps[lv.obj] {
 			if v.K != kMap {
